@@ -490,6 +490,11 @@ def ll_mask(prog: Program, res: Result) -> None:
                         d = deps(sl)
                         if d:
                             selectors.append((ast.unparse(sl), d, sl))
+                # a ufunc / reduction restricted by `where=`: the mask is the selection
+                if isinstance(x, ast.Call):
+                    for kw_ in x.keywords:
+                        if kw_.arg == "where" and deps(kw_.value):
+                            selectors.append((ast.unparse(kw_.value), deps(kw_.value), kw_.value))
             branch = "sparse" if sparse_branch else "dense"
             # the argument of the log is the model value itself: not clamped, clipped or shifted
             adesc = f"{branch} branch: the logarithm is taken of the model value itself, not of a clamped or shifted one (log term #{k + 1})"
